@@ -151,6 +151,29 @@ var gfFuncs = []gfFunc{
 		Inputs: []gfInput{{"pricePerTBMonth", "ppt", "Z"}, {"k.GetJklPrice(ctx)", "jkl", "Z"}, {"kbs", "kbs", "Z"}, {"hours", "hours", "Z"}}},
 	{Group: "goprice", Pkg: "x/storage/keeper", Recv: "Keeper", Name: "GetStorageCost", Coq: "gen_GetStorageCost",
 		Inputs: []gfInput{{"k.GetParams(ctx).PricePerTbPerMonth", "ppt", "Z"}, {"k.GetJklPrice(ctx)", "jkl", "Z"}, {"gbs", "gbs", "Z"}, {"hours", "hours", "Z"}}},
+	{Group: "goprice", Pkg: "x/storage/keeper", Recv: "Keeper", Name: "GetStorageCostKbs", Coq: "gen_GetStorageCostKbs",
+		Inputs: []gfInput{{"k.GetParams(ctx).PricePerTbPerMonth", "ppt", "Z"}, {"k.GetJklPrice(ctx)", "jkl", "Z"}, {"kbs", "kbs", "Z"}, {"hours", "hours", "Z"}}},
+	// ---- x/storage/keeper/msg_server_post_file.go: the whole handler (C04 pay-once branch, C07 plan branch)
+	{Group: "goprice", Pkg: "x/storage/keeper", Recv: "msgServer", Name: "PostFile", Coq: "gen_PostFile",
+		Inputs: []gfInput{{"json.Valid([]byte(msg.Note))", "note_ok", "bool"}, {"k.GetParams(ctx).ProofWindow", "window", "Z"}, {"ctx.BlockHeight()", "h", "Z"},
+			{"msg.FileSize", "size", "Z"}, {"msg.MaxProofs", "maxp", "Z"}, {"msg.Expires", "expires", "Z"},
+			{"k.GetParams(ctx).PricePerTbPerMonth", "ppt", "Z"}, {"k.GetJklPrice(ctx)", "jkl", "Z"},
+			{"params.ReferralCommission", "refc", "Z"}, {"params.PolRatio", "polr", "Z"},
+			{"creator_ok", "creator_ok", "bool"}, {"gauge_acc_ok", "gauge_acc_ok", "bool"}, {"ok_charge", "ok_charge", "bool"}, {"ok_fund", "ok_fund", "bool"},
+			{"found", "found", "bool"}, {"paymentInfo.End.Before(ctx.BlockTime())", "plan_over", "bool"},
+			{"paymentInfo.SpaceAvailable", "avail", "Z"}, {"paymentInfo.SpaceUsed", "used", "Z"}},
+		ReadStmts: []string{`ctx := sdk.UnwrapSDKContext(goCtx)`, `params := k.GetParams(ctx)`, `if msg.Expires > 0 { b = True }`,
+			`end := ctx.BlockTime().AddDate(0, 0, int(days))`,
+			`addr, err := sdk.AccAddressFromBech32(msg.Creator) => err=creator_ok`, `acc, err := types.GetGaugeAccount(gauge) => err=gauge_acc_ok`,
+			`paymentInfo, found := k.GetStoragePaymentInfo(ctx, msg.Creator)`},
+		Ignore: append([]string{`^file := types\.UnifiedFile\{`, `^ips := make\(`, `^res := &types\.MsgPostFileResponse\{`, `^b := False$`, `^ctx\.EventManager\(\)\.EmitEvent\(`}, gfLogging...),
+		Effects: []gfEffect{{Match: "k.RemoveFile", Tag: "remove-file-under-this-key"},
+			{Match: "k.SetFile", Tag: "set-file", Args: []string{"msg.FileSize", "msg.MaxProofs", "msg.Expires", "window"}},
+			{Match: "k.NewGauge", Tag: "new-gauge", Args: []string{"spcTokens"}},
+			{Match: "k.bankKeeper.SendCoinsFromAccountToModule", Tag: "charge-creator", Args: []string{"toPay"}, Fallible: "ok_charge"},
+			{Match: "k.bankKeeper.SendCoinsFromModuleToAccount", Tag: "fund-gauge", Args: []string{"spcTokens"}, Fallible: "ok_fund"},
+			{Match: "paymentInfo.SpaceUsed", Tag: "plan-used-add", Args: []string{"$rhs"}},
+			{Match: "k.SetStoragePaymentInfo", Tag: "set-plan"}}},
 	// ---- x/storage/keeper/rewards.go: pullTokensFromGauges, per gauge and per coin of a gauge (C12, C05)
 	{Group: "gogauge", Pkg: "x/storage/keeper", Recv: "Keeper", Name: "pullTokensFromGauges", Coq: "gen_pullGauge",
 		Path: []string{"funclit:k.IterateGauges"},
@@ -184,6 +207,21 @@ var gfFuncs = []gfFunc{
 		Inputs:  []gfInput{{"coin.Amount", "amount", "Z"}, {"networkPercentage", "pct", "Z"}, {"ok_send", "ok_send", "bool"}},
 		Ignore:  gfLogging,
 		Effects: []gfEffect{{Match: "k.bankKeeper.SendCoinsFromModuleToAccount", Tag: "pay", Args: []string{"c"}, Fallible: "ok_send"}}},
+	// ---- x/rns/keeper/msg_server_register.go: the whole registration (C16)
+	{Group: "gorns", Pkg: "x/rns/keeper", Recv: "Keeper", Name: "RegisterRNSName", Coq: "gen_RegisterRNSName",
+		Inputs: []gfInput{{"parse_ok", "parse_ok", "bool"}, {"types.IsReserved[tld]", "reserved", "bool"}, {"GetCost(tld)", "base", "Z"}, {"len(name)", "chars", "Z"},
+			{"years", "years", "Z"}, {"ctx.BlockHeight()", "h", "Z"}, {"sender_ok", "sender_ok", "bool"},
+			{"isFound", "found", "bool"}, {"whois.Expires", "expires", "Z"}, {"whois.Value != owner.String()", "other_owner", "bool"},
+			{"ok_charge", "ok_charge", "bool"}, {"pol_ok", "pol_ok", "bool"}, {"ok_pol", "ok_pol", "bool"},
+			{"primary", "primary", "bool"}, {"hasPrimary", "has_primary", "bool"}},
+		ReadStmts: []string{`nm = strings.ToLower(nm)`, `nm = strings.ReplaceAll(nm, " ", "")`,
+			`name, tld, err := GetNameAndTLD(nm) => err=parse_ok`, `whois, isFound := k.GetNames(ctx, name, tld)`,
+			`owner, err := sdk.AccAddressFromBech32(sender) => err=sender_ok`, `deposit, err := allTypes.GetPOLAccount() => err=pol_ok`,
+			`_, hasPrimary := k.GetPrimaryName(ctx, newWhois.Value)`},
+		Ignore: append([]string{`^emptySubdomains := `, `^newWhois := types\.Names\{`, `^ctx\.EventManager\(\)\.EmitEvent\(`}, gfLogging...),
+		Effects: []gfEffect{{Match: "k.bankKeeper.SendCoinsFromAccountToModule", Tag: "charge-sender", Args: []string{"price"}, Fallible: "ok_charge"},
+			{Match: "k.bankKeeper.SendCoinsFromModuleToAccount", Tag: "module-to-pol", Args: []string{"price"}, Fallible: "ok_pol"},
+			{Match: "k.SetNames", Tag: "set-name-expires", Args: []string{"time"}}, {Match: "k.SetPrimaryName", Tag: "set-primary"}}},
 	// ---- x/rns/keeper/utils.go: the price list (C16); the base cost of the TLD is a read
 	{Group: "gorns", Pkg: "x/rns/keeper", Name: "GetCostOfName", Coq: "gen_GetCostOfName",
 		Inputs: []gfInput{{"GetCost(tld)", "base", "Z"}, {"len(name)", "chars", "Z"}}},
@@ -205,6 +243,7 @@ type gfTr struct {
 	reads    map[string]gfInput
 	size     int
 	unitKind string // "" (the whole function), "funclit" or "range"
+	resKeep  []bool // which results of the Go function are part of the translated result
 }
 
 func gfNorm(s string) string { return strings.Join(strings.Fields(s), " ") }
@@ -399,7 +438,16 @@ func (t *gfTr) expr(e ast.Expr) ([]gfBind, string, string, error) {
 		return t.binary(x)
 	case *ast.CallExpr:
 		return t.call(x)
+	case *ast.CompositeLit:
+		if gfKind(info.TypeOf(x)) == "Coin" && len(x.Elts) == 1 {
+			return t.expr(x.Elts[0]) // sdk.Coins{c}: one coin, modelled by its amount
+		}
 	case *ast.SelectorExpr:
+		if v, ok := info.Uses[x.Sel].(*types.Var); ok && v.Pkg() != nil && v.Parent() == v.Pkg().Scope() {
+			if strings.HasSuffix(v.Type().String(), "errors.Error") || gfKind(v.Type()) == "err" {
+				return nil, "false", "bool", nil // a package-level error value (types.ErrReserved): not nil
+			}
+		}
 		if x.Sel.Name == "Amount" && gfKind(info.TypeOf(x.X)) == "Coin" {
 			return t.expr(x.X) // a coin is modelled by its amount
 		}
@@ -555,6 +603,8 @@ func (t *gfTr) call(c *ast.CallExpr) ([]gfBind, string, string, error) {
 		if len(c.Args) == 1 {
 			return arg(0)
 		}
+	case "fmt.Errorf", "errors.New":
+		return nil, "false", "bool", nil // a fresh error value: not nil
 	case "github.com/cosmos/cosmos-sdk/types/errors.Wrap", "github.com/cosmos/cosmos-sdk/types/errors.Wrapf":
 		if id, ok := c.Args[0].(*ast.Ident); ok {
 			if _, isVar := info.Uses[id].(*types.Var); isVar && info.Uses[id].Parent() != info.Uses[id].Pkg().Scope() {
@@ -801,9 +851,41 @@ func (t *gfTr) seq(stmts []ast.Stmt) (string, error) {
 	s, rest := stmts[0], stmts[1:]
 	text := t.src(s)
 	for _, r := range t.cfg.ReadStmts {
-		if gfNorm(r) == text {
-			return t.seq(rest)
+		// "stmt => v=input, w=input": the statement fetches reads and (re)assigns the translated variables v, w
+		parts := strings.SplitN(r, " => ", 2)
+		if gfNorm(parts[0]) != text {
+			continue
 		}
+		pre := ""
+		if len(parts) == 2 {
+			as, ok := s.(*ast.AssignStmt)
+			if !ok {
+				return "", t.errf(s, "a read statement with assignments must be an assignment")
+			}
+			for _, kv := range strings.Split(parts[1], ",") {
+				f := strings.SplitN(strings.TrimSpace(kv), "=", 2)
+				in, ok := t.reads[f[1]]
+				if !ok {
+					return "", t.errf(s, "read statement assigns %s from an unknown input %s", f[0], f[1])
+				}
+				done := false
+				for _, l := range as.Lhs {
+					if id, ok := l.(*ast.Ident); ok && id.Name == f[0] {
+						o := t.pkg.TypesInfo.Defs[id]
+						if o == nil {
+							o = t.pkg.TypesInfo.Uses[id]
+						}
+						pre += "let " + t.nameOf(o) + " := " + in.Coq + " in\n"
+						done = true
+					}
+				}
+				if !done {
+					return "", t.errf(s, "read statement does not assign %s", f[0])
+				}
+			}
+		}
+		r2, err := t.seq(rest)
+		return pre + r2, err
 	}
 	if t.matchAny(t.cfg.Ignore, text) {
 		return t.seq(rest)
@@ -830,7 +912,10 @@ func (t *gfTr) seq(stmts []ast.Stmt) (string, error) {
 	case *ast.ReturnStmt:
 		var binds []gfBind
 		vals := []string{}
-		for _, r := range x.Results {
+		for i, r := range x.Results {
+			if len(t.resKeep) == len(x.Results) && !t.resKeep[i] {
+				continue
+			}
 			b, v, _, err := t.expr(r)
 			if err != nil {
 				return "", err
@@ -1022,6 +1107,36 @@ func (t *gfTr) switchStmt(x *ast.SwitchStmt, rest []ast.Stmt) (string, error) {
 
 func (t *gfTr) assign(x *ast.AssignStmt, rest []ast.Stmt) (string, error) {
 	info := t.pkg.TypesInfo
+	if len(x.Lhs) > 1 && len(x.Rhs) == 1 {
+		if c, ok := x.Rhs[0].(*ast.CallExpr); ok {
+			if fn, ok := t.calleeObj(c).(*types.Func); ok {
+				if cfg, ok := t.byObj[fn]; ok && len(cfg.Effects) == 0 && fn.Type().(*types.Signature).Results().Len() == len(x.Lhs) {
+					binds, tmp, _, err := t.callTranslated(c, fn, cfg)
+					if err != nil {
+						return "", err
+					}
+					names := []string{}
+					for _, l := range x.Lhs {
+						id, ok := l.(*ast.Ident)
+						if !ok {
+							return "", t.errf(x, "tuple assignment to a non-variable")
+						}
+						if id.Name == "_" {
+							names = append(names, "_")
+							continue
+						}
+						o := info.Defs[id]
+						if o == nil {
+							o = info.Uses[id]
+						}
+						names = append(names, t.nameOf(o))
+					}
+					r, err := t.seq(rest)
+					return gfWrap(binds, "let '("+strings.Join(names, ", ")+") := "+tmp+" in\n"+r), err
+				}
+			}
+		}
+	}
 	if len(x.Lhs) != 1 || len(x.Rhs) != 1 {
 		return "", t.errf(x, "assignment `%s` with several operands is not a configured read statement", t.src(x))
 	}
@@ -1056,6 +1171,16 @@ func (t *gfTr) assign(x *ast.AssignStmt, rest []ast.Stmt) (string, error) {
 	}
 	if id.Name == "_" {
 		return t.seq(rest)
+	}
+	if c, ok := x.Rhs[0].(*ast.CallExpr); ok {
+		if ef := t.effectFor(t.src(c.Fun)); ef != nil && ef.Fallible == "" && gfKind(o.Type()) == "opaque" {
+			_, ev, err := t.emitEvent(ef, "", x)
+			if err != nil {
+				return "", err
+			}
+			r, err := t.seq(rest)
+			return ev + r, err
+		}
 	}
 	// err := fallibleEffect(...)
 	if c, ok := x.Rhs[0].(*ast.CallExpr); ok {
@@ -1205,10 +1330,13 @@ func genGoFuncs(c *Ctx, group string) (string, string, error) {
 				switch k {
 				case "Z", "Dec", "Int":
 					t.resTy = append(t.resTy, "Z")
+					t.resKeep = append(t.resKeep, true)
 				case "bool", "err":
 					t.resTy = append(t.resTy, "bool")
+					t.resKeep = append(t.resKeep, true)
 				default:
-					return fmt.Errorf("%s: result of type %s", f.Name, sig.Results().At(i).Type())
+					// a result the translation does not model (a response record): dropped from the result tuple
+					t.resKeep = append(t.resKeep, false)
 				}
 			}
 		}
